@@ -337,4 +337,4 @@ pub struct StoreMeta {
 
 #[cfg(kani)]
 #[path = "/verif/units/kani/allocator.rs"]
-mod verif_kani;
+pub(crate) mod verif_kani;
